@@ -381,7 +381,25 @@ def gen_contention(rng):
 
 # ----------------------------------------------------------------------------------------- buffers
 
+def gen_resonance(rng):
+    """Decimal resonance: a buffered part's due time (arrival on a coarse clean clock + a decimal delay) and the
+    moments its consumer becomes free (a fine clock reached by summing 0.1 many times) differ by a few roundings."""
+    spec = {'devs': [], 'groups': [], 'res': {}, 'actions': []}
+    devs = spec['devs']
+    devs.append({'k': 'S', 'n': 'S0', 'c': rng.choice([0.5, 1, 0.3, 1.5]), 'budget': rng.choice([10, 20]), 'batch': None, 'val': 1})
+    devs.append({'k': 'S', 'n': 'S1', 'c': 0.1, 'budget': rng.choice([40, 70]), 'batch': None, 'val': 1})
+    devs.append({'k': 'B', 'n': 'B0', 'c': rng.choice([0.1, 0.2, 0.3, 0.6]), 'cap': rng.choice([1, 2, 3]), 'up': ['S0']})
+    devs.append({'k': 'H', 'n': 'H0', 'c': 0.1, 'up': ['B0', 'S1']})
+    devs.append({'k': 'K', 'n': 'K0', 'c': 0, 'up': ['H0']})
+    spec = finish(rng, spec, 'buffers-noise-resonance')
+    spec['T'] = [rng.choice([4.3, 7.3])]
+    spec.pop('between', None)
+    return spec
+
+
 def gen_buffers(rng, noise=False):
+    if noise and rng.random() < 0.35:
+        return gen_resonance(rng)
     spec = {'devs': [], 'groups': [], 'res': {}, 'actions': []}
     devs = spec['devs']
     grid = [0.1, 0.3, 0.7, 1 / 3, 3.7, 0.2, 1.1] if noise else GRID
@@ -402,7 +420,7 @@ def gen_buffers(rng, noise=False):
     nb = rng.choice([1, 1, 2, 3])
     for j in range(nb):
         devs.append({'k': 'B', 'n': f'B{j}', 'c': rng.choice(dgrid if noise else [0, 0, 0] + grid),
-                     'cap': rng.choice([1, 2, 3, 4, 4, INF]), 'up': prev})
+                     'cap': rng.choice([1, 2, 3, 4, 4, INF, 1.5, 3.7]), 'up': prev})
         prev = [f'B{j}']
         if rng.random() < 0.4 and j < nb - 1:
             devs.append({'k': 'H', 'n': f'Hm{j}', 'c': rng.choice(grid), 'up': prev})
@@ -440,7 +458,8 @@ def gen_interrupt(rng):
     ns = rng.choice([1, 1, 2])
     for i in range(ns):
         devs.append({'k': 'S', 'n': f'S{i}', 'c': rng.choice([0.25, 0.5, 1, 1.5, 3]),
-                     'budget': rng.choice([INF, 9, 20, 2, 3, 5]), 'batch': None, 'val': rng.choice([0, 1])})
+                     'budget': rng.choice([INF, 9, 20, 2, 3, 5]),
+                     'batch': rng.choice([None, None, None, None, None, 0, [2, 0], [0, 1]]), 'val': rng.choice([0, 1])})
     prev = [f'S{i}' for i in range(ns)]
     if rng.random() < 0.4:
         devs.append({'k': 'B', 'n': 'B0', 'c': 0, 'cap': rng.choice([1, 2, INF]), 'up': prev})
